@@ -324,12 +324,17 @@ pub trait Labels {
     }
 
     fn labels(&self) -> Vec<Self::Elem> {
-        self.label_set()
+        let mut labels = self
+            .label_set()
             .into_iter()
             .flatten()
             .collect::<HashSet<_>>()
             .into_iter()
-            .collect()
+            .collect::<Vec<_>>();
+        // the set iterates in a different order in every process; callers build class lists and
+        // one-vs-all problems in the order returned here, so make it the order of the labels
+        labels.sort();
+        labels
     }
 
     fn combined_labels<T>(&self, other: &T) -> Vec<Self::Elem>
@@ -339,13 +344,15 @@ pub trait Labels {
         let mut combined = self.label_set();
         combined.extend(other.label_set());
 
-        combined
+        let mut labels = combined
             .iter()
             .flatten()
             .collect::<HashSet<_>>()
             .into_iter()
             .cloned()
-            .collect()
+            .collect::<Vec<_>>();
+        labels.sort();
+        labels
     }
 }
 
